@@ -115,9 +115,11 @@ def sensitivity(only=None, tier='quick', jobs=16, index='mutants/index.json', wi
                     caught.append((pid, cls))
                 elif r.returncode == 2:
                     print('  harness error while checking %s under %s: %s' % (pid, m['patch'], r.stdout[-400:]))
-            results.append({'patch': m['patch'], 'property': m['property'], 'expect': m.get('expect', 'violation'), 'what': m.get('what', ''), 'origin': m.get('origin', ''),
+            results.append({'id': m.get('id'), 'why': m.get('why', ''), 'patch': m['patch'], 'property': m['property'], 'expect': m.get('expect', 'violation'), 'what': m.get('what', ''), 'origin': m.get('origin', ''),
                             'caught_by': [c[0] for c in caught], 'first_class': (caught[0][1][0].split('): ', 1)[-1] if caught and caught[0][1] else '')})
-            if m.get('expect') == 'equivalent':
+            if m.get('expect') == 'out_of_reach':
+                print('%s %-34s (declared out of reach of simulation: %s)' % ('caught ' if caught else 'n/a    ', m.get('id') or os.path.basename(m['patch']), m.get('why', '')[:110]))
+            elif m.get('expect') == 'equivalent':
                 # a change that preserves the property must stay green: an alarm here would be a false alarm
                 if caught:
                     missed += 1
